@@ -49,6 +49,18 @@ def _gen_points(rng, family: str, n: int, d: int) -> list[list[float]]:
             s = sum(w)
             pts.append([round(x / s * 8) / 2 for x in w])
         return pts
+    if family == "geom2d":  # 2-D front with geometrically spread extents and clusters of near-duplicates
+        q = rng.choice([3.0, 10.0, 50.0])
+        m = max(3, n - rng.randint(0, 3))
+        w = [q ** i for i in range(m)]
+        h = [q ** (m - 1 - i) * rng.choice([1.0, 1.0, 1.05, 0.97]) for i in range(m)]
+        pts = [[-a, -b] for a, b in zip(w, h)]
+        while len(pts) < n:
+            a, b = rng.choice(pts[:m])
+            e = rng.choice([1e-3, 1e-6, 1e-2]) * rng.randint(1, 3)
+            pts.append([a + e, b - rng.choice([1, 3]) * e] if rng.random() < 0.5 else [a - e, b + rng.choice([1, 3]) * e])
+        rng.shuffle(pts)
+        return pts
     if family == "inf":
         pts = [[float(rng.randint(0, 3)) for _ in range(d)] for _ in range(n)]
         for p in pts:
@@ -187,7 +199,7 @@ def _hssp_check(ctx: Ctx, rng, P, r, fam: str) -> None:
     if len(front) < 1:
         return
     FP = [P[i] for i in front]
-    k = rng.randint(1, len(front))
+    k = rng.randint(1, len(front)) if fam != "geom2d" else rng.randint(min(3, len(front)), len(front))
     # arbitrary, non-contiguous index labels as the callers pass them
     labels = sorted(rng.sample(range(100), len(front)))
     case = {"fn": "_solve_hssp", "front": FP, "ref": r, "subset_size": k, "labels": labels}
@@ -235,7 +247,11 @@ def _callers_check(ctx: Ctx, rng, P, fam: str) -> None:
     for i, t in enumerate(trials):
         t.number = i
     exp = oracles.peel_ranks(P)
-    per_rank = _rank_population(list(trials), dirs)
+    try:
+        per_rank = _rank_population(list(trials), dirs)
+    except Exception as e:  # noqa: BLE001
+        ctx.violation({"fn": "_rank_population", "kind": "raised", "exc": type(e).__name__}, f"raised {e}", {"fn": "_rank_population", "points": P})
+        return
     got = {t.number: k for k, grp in enumerate(per_rank) for t in grp}
     ctx.count("rank_population_calls")
     if [got.get(i) for i in range(len(P))] != exp:
@@ -246,7 +262,12 @@ def _callers_check(ctx: Ctx, rng, P, fam: str) -> None:
         directions = dirs
 
     nb = rng.randint(0, len(P))
-    below, above = _split_complete_trials_multi_objective(trials, _S(), nb)
+    try:
+        below, above = _split_complete_trials_multi_objective(trials, _S(), nb)
+    except Exception as e:  # noqa: BLE001
+        ctx.violation({"fn": "tpe_split", "kind": "raised", "exc": type(e).__name__}, f"TPE below/above split raised {type(e).__name__}: {e}",
+                      {"fn": "_split_complete_trials_multi_objective", "points": P, "dirs": [x.name for x in dirs], "n_below": nb})
+        return
     ctx.count("tpe_split_calls")
     bn = [t.number for t in below]
     an = [t.number for t in above]
@@ -270,7 +291,7 @@ def run(ctx: Ctx) -> None:
         "inputs whose true volume is 0*inf are not judged",
     ]
     n_cases = ctx.pick(30000, 600000)
-    fams = ["lattice", "lattice_wide", "doubles", "dups", "front", "inf"]
+    fams = ["lattice", "lattice_wide", "doubles", "dups", "front", "inf", "geom2d"]
     for idx in range(n_cases):
         if not ctx.mine(idx):
             continue
@@ -279,8 +300,10 @@ def run(ctx: Ctx) -> None:
         d = rng.choice([1, 2, 2, 3, 3, 4, 5])
         nmax = {1: 9, 2: 9, 3: 9, 4: 8, 5: 7}[d]
         n = rng.randint(1, nmax)
+        if fam == "geom2d":
+            d, n = 2, rng.randint(5, 10)
         P = _gen_points(rng, fam, n, d)
-        r = _gen_ref(rng, P, d, allow_inf=(fam == "inf"))
+        r = _gen_ref(rng, P, d, allow_inf=(fam == "inf")) if fam != "geom2d" else [0.0, 0.0]
         has_dup = len(set(map(tuple, P))) < n
         has_tie = any(len({p[k] for p in P}) < n for k in range(d))
         has_dom = any(x > 0 for x in oracles.peel_ranks(P)) if all(v == v for p in P for v in p) else False
@@ -293,6 +316,8 @@ def run(ctx: Ctx) -> None:
         ctx.case({"points": P, "ref": r}, n >= 3 and (has_dup or has_tie or has_dom or has_inf))
         if fam == "inf":
             _hv_check(ctx, P, r, False, fam)
+            if not has_dom:
+                _hv_check(ctx, P, r, True, fam)
             # ranks with infinities are well defined
             _rank_check(ctx, rng, P, fam)
             _hssp_check(ctx, rng, P, r, fam)
